@@ -355,13 +355,25 @@ func runProgram(r *ev.Run, id string, i int) {
 		coreEn = zap.LevelEnablerFunc(func(l zapcore.Level) bool { return !off && inner.Enabled(l) })
 		enDesc += "+switch"
 	}
+	// the duration encoder rotates over the four stock ones (round 8): a typed duration attribute is
+	// recoverable from each of them
+	encCfg, repr := encCfg, repr
+	switch i % 4 {
+	case 1:
+		encCfg.EncodeDuration, repr.Dur = zapcore.MillisDurationEncoder, ref.DMillis
+	case 2:
+		encCfg.EncodeDuration, repr.Dur = zapcore.SecondsDurationEncoder, ref.DSeconds
+	case 3:
+		encCfg.EncodeDuration, repr.Dur = zapcore.StringDurationEncoder, ref.DString
+	}
+	r.SetAdd("duration_encoders", fmt.Sprint(i%4))
 	core := zapcore.NewCore(zapcore.NewJSONEncoder(encCfg), sink, coreEn)
 	// every second program also feeds a console core (message column only): its context object must be
 	// the same tree
 	var sinkC *rec.Sink
 	if i%2 == 1 {
 		sinkC = &rec.Sink{}
-		core = zapcore.NewTee(core, zapcore.NewCore(zapcore.NewConsoleEncoder(zapcore.EncoderConfig{MessageKey: "msg", EncodeTime: zapcore.EpochNanosTimeEncoder, EncodeDuration: zapcore.NanosDurationEncoder}), sinkC, coreEn))
+		core = zapcore.NewTee(core, zapcore.NewCore(zapcore.NewConsoleEncoder(zapcore.EncoderConfig{MessageKey: "msg", EncodeTime: zapcore.EpochNanosTimeEncoder, EncodeDuration: encCfg.EncodeDuration}), sinkC, coreEn))
 		r.Count("programs_with_console_core", 1)
 	}
 	// every third program also feeds an observer core (zaptest/observer, whose context map is built by
